@@ -28,6 +28,9 @@ pub struct World {
     /// shared targets (None if construction was rejected)
     targets: Vec<std::sync::atomic::AtomicPtr<Node>>,
     datas: Vec<*mut CML>,
+    /// cells holding the shared references that `MutRefs` targets borrow mutably
+    cells: std::sync::Mutex<Vec<usize>>,
+    cell_lens: std::sync::Mutex<Vec<usize>>,
 }
 
 unsafe impl Send for World {}
@@ -104,7 +107,7 @@ impl World {
                 }
             }
         }
-        let mut w = World { spec: spec.clone(), arena, leaf_ptr, unit_ptr, runit_ptr, targets: Vec::new(), datas: Vec::new() };
+        let mut w = World { spec: spec.clone(), arena, leaf_ptr, unit_ptr, runit_ptr, targets: Vec::new(), datas: Vec::new(), cells: std::sync::Mutex::new(Vec::new()), cell_lens: std::sync::Mutex::new(Vec::new()) };
         for d in &spec.datas {
             // exclusive borrows of arena leaves (no other reference to these leaves is ever made)
             let members: Vec<&'static mut Leaf> = d.leaves.iter().map(|l| unsafe { &mut *(w.leaf_ptr[*l].expect("data leaf must have an arena slot") as *mut Leaf) }).collect();
@@ -171,6 +174,56 @@ impl World {
                     }
                 }
                 Ok(Node::Tagged(Box::new(n), Tag(*tag)))
+            }
+            TSpec::MutRefs { kind, cont, members } => {
+                let mut refs: Vec<&'static Leaf> = Vec::new();
+                for l in members {
+                    refs.push(self.leaf(*l).ok_or_else(|| BuildErr::Bad(format!("leaf {} has no slot", l)))?);
+                }
+                let n = refs.len();
+                let cells: *mut [&'static Leaf] = Box::into_raw(refs.into_boxed_slice());
+                self.cells.lock().unwrap().push(cells as *mut &'static Leaf as usize);
+                self.cell_lens.lock().unwrap().push(n);
+                let muts: Vec<&'static mut &'static Leaf> = unsafe { (*cells).iter_mut().collect() };
+                let mut pick = Pick(Some(Cont::build(*cont, muts)));
+                let dup = self.spec.has_dup(t);
+                #[allow(unused_imports)]
+                use crate::shape::Checked;
+                let (unchecked, node) = match kind {
+                    OwnKind::Boxed => {
+                        let (u, c) = pick.boxed();
+                        (u, c.map(Node::MBoxed))
+                    }
+                    OwnKind::Retry => {
+                        let (u, c) = pick.retry();
+                        (u, c.map(|c| Node::MRetry(Box::new(c))))
+                    }
+                    OwnKind::Owned => return Err(BuildErr::Bad("MutRefs cannot be an owned collection".into())),
+                    OwnKind::Ref => {
+                        let (u, c) = pick.reff();
+                        (u, c.map(Node::MRef))
+                    }
+                };
+                if unchecked {
+                    // the compiler let data that merely refers to locks through the constructors that skip the check
+                    sched.report(Clause::DupVerdict, format!("the compiler accepts a container of `&mut &lock` as OwnedLockable: {:?}::new was used without any duplicate check on elements {:?}", kind, self.spec.elems(t)));
+                    return node.ok_or(BuildErr::Rejected);
+                }
+                if *kind == OwnKind::Owned {
+                    return Err(BuildErr::Rejected);
+                }
+                match (node, dup) {
+                    (Some(n), false) => Ok(n),
+                    (None, true) => Err(BuildErr::Rejected),
+                    (Some(_), true) => {
+                        sched.report(Clause::DupVerdict, format!("{:?} try_new accepted `&mut &lock` members {:?} which contain a duplicate", kind, self.spec.elems(t)));
+                        Err(BuildErr::Rejected)
+                    }
+                    (None, false) => {
+                        sched.report(Clause::DupVerdict, format!("{:?} try_new rejected duplicate-free `&mut &lock` members {:?}", kind, self.spec.elems(t)));
+                        Err(BuildErr::Rejected)
+                    }
+                }
             }
             TSpec::Group { cont, members } => {
                 let mut ms = Vec::new();
@@ -345,6 +398,11 @@ impl World {
             if !p.is_null() {
                 drop(unsafe { Box::from_raw(p) });
             }
+        }
+        let cells = std::mem::take(&mut *self.cells.lock().unwrap());
+        let lens = std::mem::take(&mut *self.cell_lens.lock().unwrap());
+        for (p, n) in cells.into_iter().zip(lens) {
+            drop(unsafe { Box::from_raw(std::ptr::slice_from_raw_parts_mut(p as *mut &'static Leaf, n)) });
         }
         while let Some(d) = self.datas.pop() {
             drop(unsafe { Box::from_raw(d) });
